@@ -22,14 +22,14 @@ PoolCore == <<
     Call(ff, << x, S1 >>),
     CSE0(S1),
     N("Sum", << CSE0(S1), CSE0(S1), y >>),            \* one wrapper twice
-    B("Sub", tt, K1),
+    Look(B("Sub", tt, K1), "p"),                      \* a lookup of a subscript (dependency flags)
     N("BitAnd", << y, K4 >>),
     N("BitAnd", << y, K4f >>)                         \* evaluates to an error, its == twin does not
 >>
 PoolMore == <<
     y, K0, K(FltV(1, 1)),
     N("Sum", << x, K1 >>), N("Sum", << x, KT >>),
-    B("Sub", tt, KT),
+    B("Sub", tt, K1), B("Sub", tt, KT),
     Look(oo, "p"),
     IfE(Cmp(x, "<", y), S1, S1f),
     CallKw(ff, << S1 >>, << KwArg("k1", S1f) >>),
@@ -46,9 +46,9 @@ PoolMini == << x, K4, K4f, S1, S1f, N("Product", << S1, S1f >>), CSE0(S1),
               N("Sum", << CSE0(S1), CSE0(S1), y >>) >>
 PoolConsts == << K4, K4f, K1, KT, K(FltV(1, 1)), K0, K(BoolV(FALSE)) >>
 
-ArgCore == << NoArgs, Args(<< IntV(1) >>, << >>), Args(<< IntV(2) >>, << >>) >>
+ArgCore == << NoArgs, Args(<< IntV(1) >>, << >>), Args(<< >>, << [name |-> "k", v |-> IntV(1)] >>) >>
 ArgMore == << Args(<< IntV(1), IntV(2) >>, << >>),
-              Args(<< >>, << [name |-> "k", v |-> IntV(1)] >>),
+              Args(<< IntV(2) >>, << >>),
               Args(<< IntV(1) >>, << [name |-> "k", v |-> IntV(2)] >>),
               Args(<< FltV(1, 1) >>, << >>),            \* == (1,) but another type
               Args(<< BoolV(TRUE) >>, << >>) >>
